@@ -114,6 +114,12 @@ SABOTAGE = [
     [['send', '2probe'], ['wait_frame'], ['send', '5']],
     [['send', '2probe'], ['wait_frame'], ['delay', 3], ['send', '5']],
 ]
+# handshakes that are held open (the client may vanish in the middle)
+SABOTAGE_STALL = [
+    [['send', '2probe'], ['wait_frame'], ['delay', 20000]],
+    [['delay', 20000]],
+    [['send', '2probe'], ['wait_frame'], ['blackhole'], ['delay', 20000]],
+]
 # frames that cannot be decoded at all (known weak spot, kept separate so that
 # a profile can switch them on)
 SABOTAGE_UNDECODABLE = [
@@ -166,7 +172,9 @@ def gen_server_plan(rng, prof=None):
             u = {'t': t_up}
             if rng.random() < p['p_sabotage']:
                 pool = SABOTAGE + (SABOTAGE_UNDECODABLE
-                                   if p.get('undecodable_frames') else [])
+                                   if p.get('undecodable_frames') else []) \
+                    + (SABOTAGE_STALL * 3 if p.get('stalled_handshakes')
+                       else [])
                 u['steps'] = rng.choice(pool)
             s['upgrades'] = [u]
             if rng.random() < p['p_second_upgrade']:
